@@ -1087,8 +1087,11 @@ func (s *Stage) putFileAway(file *finalFile) (targetPath string, err error) {
 	s.toCache(file, stateFinalized)
 
 	// Clean up the companion (no need to capture an error since it wouldn't
-	// be a deal-breaker anyway)
-	os.Remove(file.path + compExt)
+	// be a deal-breaker anyway) - unless a newer version that is being
+	// received behind this one has made it its own record
+	if cmp, _ := readLocalCompanion(file.path, file.name); cmp == nil || cmp.Hash == file.hash {
+		os.Remove(file.path + compExt)
+	}
 	return
 }
 
